@@ -47,5 +47,8 @@ lines = ["hash sha256 3,0,4 1 " + bytes(range(7)).hex(), "hmac sha1 0102 5 01020
 for nm, ev, fld, val in (("crypto_hash", "hash", "digest", "00" * 32), ("crypto_ctr", "ctr", "out", "00" * 20), ("crypto_dh", "dhpub", "out", "00" * 256),
                          ("crypto_sig", "sig", "auth", "00"), ("crypto_drbg", "drbg_read", "out", "00" * 5)):
     record(nm, cexe, "prog crypto\n" + "\n".join(lines) + "\nend\n", "crypto", "CryptoTrace", "CryptoTrace.cfg", ["set", ev, fld, val])
+# ipc_sync between two forked processes (extra X01)
+iexe = vlib.build(c.dir, "drv_ipc", [os.path.join(vlib.HARNESS, "drv_ipc.c")] + vlib.repo_srcs("util/ipc_sync.c", "util/noeintr.c", "util/warnp.c"))
+record("ipc", iexe, "prog ipc\nA wait\nB signal\nA done\nB done\nend\n", "proc", "IpcSyncTrace", "IpcSyncTrace.cfg", ["set", "ret", "rc", -1])
 with open(os.path.join(OUT, "index.json"), "w") as f:
     json.dump(index, f, indent=1, sort_keys=True)
